@@ -151,7 +151,7 @@ func build(needRace, needPlain bool) (*buildInfo, error) {
 	}
 	bi.Sites, bi.Counts = res.Sites, res.Counts
 	extra := map[string]string{
-		filepath.Join(repo, "cmd/go-critic/zz_gcsim_shim.go"):     filepath.Join(verif, "sim/shims/cli_shim.go.txt"),
+		filepath.Join(repo, "cmd/go-critic/zz_gcsim_shim.go"): filepath.Join(verif, "sim/shims/cli_shim.go.txt"),
 	}
 	ovl, err := res.WriteOverlay(dir, extra)
 	if err != nil {
